@@ -53,7 +53,28 @@ ds_abstract.register("x", ds_a)
 ds_derived = ds_main.with_options({"A": "wa"}).with_default_options({"D": "x"})
 expr_root = coalesce(switch("E", {"m": ds_main, "c": ds_c}), ds_derived >> upper, Value("nothing"))
 
-GRAPHS = {"ds_a": ds_a, "ds_c": ds_c, "ds_main": ds_main, "ds_abstract": ds_abstract, "ds_derived": ds_derived, "expr_root": expr_root}
+
+
+# options grouped in a namespace: single members, an auto member of a nested namespace, and the namespace as a whole
+@Option.namespace("NS")
+class NS:
+    P: int = 3
+    Q = Option("A", "q-default")
+
+    class SUB:
+        R = Option.auto(default="r-default", doc="auto member")
+
+
+def body_ns(p=NS.P, r=NS.SUB.R, whole=NS, c=Option("C", 0)):
+    return ("ns", p, r, sorted(whole.items(), key=str), c)
+
+
+ds_ns = dataset(body_ns, dispatch=NS.Q)
+ds_ns.overload("x")(ov_x)
+typed = dataset(body_a, defaults={"a": Option[int]("A", 0)})
+
+DISPATCH_KEY = {"ds_ns": "NS.A"}  # (others dispatch on D)
+GRAPHS = {"ds_ns": ds_ns, "ns": NS, "typed": typed, "ds_a": ds_a, "ds_c": ds_c, "ds_main": ds_main, "ds_abstract": ds_abstract, "ds_derived": ds_derived, "expr_root": expr_root}
 
 
 # decorator form (recorded finding: the name of the function now refers to the Dataset)
@@ -77,4 +98,6 @@ CORPUS = [
     {"E": "q", "C": [1, 2], "N1": 1},
     {"A": None, "C": False, "S": {"X": 0, "Y": 1}},
     {"D": "late", "E": "ee", "C": 1},
+    {"NS": {"P": 9, "SUB": {"R": "rr"}}, "A": "x"},
+    {"NS": {"P": "{C}", "EXTRA": 1}, "C": 5},
 ]
